@@ -2,6 +2,7 @@ package storage
 
 import (
 	"bytes"
+	"sort"
 	"sync"
 )
 
@@ -210,6 +211,51 @@ func (s *State) IterateRange(start, end []byte, ascending bool, fn func(key, val
 		}
 		stop := fn(key, value)
 		if stop {
+			return true
+		}
+	}
+	return true
+}
+
+// IterateRangeWithPending is IterateRange that also visits the keys of
+// [start, end) first written earlier in this block or tx session. Those are not
+// in the tree yet, so IterateRange does not list them; work done by walking a
+// prefix (deleting or updating every record under it) would miss them.
+func (s *State) IterateRangeWithPending(start, end []byte, ascending bool, fn func(key, value []byte) bool) (stop bool) {
+	keys := make([]StoreKey, 0, 100)
+	known := map[string]bool{}
+	s.cs.IterateRange(start, end, ascending, func(key, value []byte) bool {
+		keys = append(keys, key)
+		known[string(key)] = true
+		return false
+	})
+	found := len(keys)
+	add := func(key, _ []byte) bool {
+		if !known[string(key)] && bytes.Compare(key, start) >= 0 && bytes.Compare(key, end) < 0 {
+			known[string(key)] = true
+			keys = append(keys, append(StoreKey{}, key...))
+		}
+		return false
+	}
+	s.rawCache().GetIterable().Iterate(add)
+	if s.txSession != nil {
+		s.txSession.GetIterable().Iterate(add)
+	}
+	if len(keys) > found {
+		sort.Slice(keys, func(i, j int) bool {
+			if ascending {
+				return bytes.Compare(keys[i], keys[j]) < 0
+			}
+			return bytes.Compare(keys[i], keys[j]) > 0
+		})
+	}
+	for _, key := range keys {
+		value, err := s.Get(key)
+		if err != nil || value == nil {
+			// (nil: deleted earlier in this block or session)
+			continue
+		}
+		if fn(key, value) {
 			return true
 		}
 	}
